@@ -12,9 +12,11 @@ import (
 	"os"
 	"path/filepath"
 	"runtime"
+	"runtime/pprof"
 	"sort"
 	"strings"
 	"sync"
+	"sync/atomic"
 	"time"
 
 	"golang.org/x/tools/go/packages"
@@ -59,7 +61,14 @@ func main() {
 	flag.StringVar(&kf, "open-kf", "", "comma separated ids of open known findings")
 	flag.BoolVar(&cfg.trace, "trace", false, "trace instructions")
 	flag.IntVar(&cfg.dumpQ, "dump-queries", 0, "dump up to N assertion queries per harness for cross-checking")
+	var cpuprof string
+	flag.StringVar(&cpuprof, "cpuprofile", "", "write cpu profile")
 	flag.Parse()
+	if cpuprof != "" {
+		f, _ := os.Create(cpuprof)
+		pprof.StartCPUProfile(f)
+		defer pprof.StopCPUProfile()
+	}
 	cfg.pkgs = splitList(pkgs)
 	cfg.harnesses = splitList(hs)
 	cfg.openKF = map[string]bool{}
@@ -110,6 +119,9 @@ func main() {
 	report["wall_s"] = time.Since(t0).Seconds()
 	b, _ := json.MarshalIndent(report, "", " ")
 	os.WriteFile(filepath.Join(cfg.out, "result.json"), b, 0o644)
+	if cpuprof != "" {
+		pprof.StopCPUProfile()
+	}
 	os.Exit(exit)
 }
 
@@ -200,13 +212,41 @@ func newInterpreter(prog *ssa.Program) *interpreter {
 	return i
 }
 
+// resetForPath prepares the interpreter for a new path. Package-level state of
+// dependency packages (standard library, cosmos-sdk, go-ethereum, ...) is
+// initialised once per worker and kept; packages of the repository under test
+// (including the injected harness/model packages) are re-initialised for every path.
 func (i *interpreter) resetForPath() {
-	i.globals = make(map[*ssa.Global]*value)
-	i.pkgInit = make(map[*ssa.Package]int)
+	if i.globals == nil || os.Getenv("GOSYM_FRESH_GLOBALS") != "" {
+		i.globals = make(map[*ssa.Global]*value)
+		i.pkgInit = make(map[*ssa.Package]int)
+	} else {
+		for pkg := range i.pkgInit {
+			if isVolatilePkg(pkg) {
+				for _, m := range pkg.Members {
+					if g, ok := m.(*ssa.Global); ok {
+						delete(i.globals, g)
+					}
+				}
+				delete(i.pkgInit, pkg)
+			}
+		}
+	}
 	i.extState = make(map[string]interface{})
 	i.callDepth = 0
 	i.inInit = 0
 }
+
+// Package-level state is initialised once per worker and kept across paths
+// (as it is kept across transactions in the real process). SMT symbols carry a
+// per-path id, so a stale symbolic term leaking through a package-level cache
+// is an undeclared constant for the solver, i.e. an error => inconclusive,
+// never a silent confusion. GOSYM_FRESH_GLOBALS=1 re-initialises everything per path.
+func isVolatilePkg(pkg *ssa.Package) bool {
+	return false
+}
+
+var pathCounter int64
 
 type workQueue struct {
 	mu     sync.Mutex
@@ -289,6 +329,7 @@ func runPath(in *interpreter, sol *solver, fn *ssa.Function, prefix []int, hr *h
 		funcs: map[*ssa.Function]bool{}, stubs: map[string]bool{},
 		asserted: map[string]int{}, reached: map[string]bool{}, notes: map[string]string{},
 	}
+	st.pathID = atomic.AddInt64(&pathCounter, 1)
 	in.st = st
 	base := sol.depth
 	sol.push()
@@ -366,6 +407,14 @@ func runPath(in *interpreter, sol *solver, fn *ssa.Function, prefix []int, hr *h
 	if ended {
 		hr.pathsEnd++
 		if sample != nil && len(hr.samples) < 5 {
+			// witness file in counterexample format, for native validation of a passing path
+			sv := violation{Harness: hr.name, Label: "<sample>", Inputs: map[string]string{}, Prefix: append([]int(nil), st.taken...)}
+			for k, v := range sample {
+				sv.Inputs[k] = v
+			}
+			b, _ := json.MarshalIndent(sv, "", " ")
+			short := hr.name[strings.LastIndex(hr.name, ".")+1:]
+			os.WriteFile(filepath.Join(cfg.out, fmt.Sprintf("sample-%s-%d.json", sanitize(short), len(hr.samples))), b, 0o644)
 			for k, n := range st.notes {
 				sample["note:"+k] = n
 			}
